@@ -4,15 +4,16 @@ checks makes the check report `proof-broken`."""
 
 
 def allowed_extra_axiom(a):
-    # bv_decide's axioms; accepted for bit-twiddling lemmas only and reported in the evidence
-    return a in ("Lean.ofReduceBool", "Lean.trustCompiler") or "_native.bv_decide.ax" in a
+    # none: since the third session every theorem is on propext / Classical.choice / Quot.sound only (bv_decide and its
+    # Lean.ofReduceBool / Lean.trustCompiler / _native.bv_decide.ax_* axioms are no longer accepted anywhere)
+    return False
 
 
 MODEL_TRUST = [
     "hand-written Lean model of the Rust source, tied to /repo's working tree by the correspondence check of this run (op streams executed on the real crate and on the model, outputs diffed)",
     "Rust semantics of slices/wrapping arithmetic/chunks_exact as transcribed in the model",
 ]
-SIMD_TRUST = ["semantics of the x86 intrinsics in HH/Intrin/X86.lean (Intel pseudo-code), validated against the real instructions through the SSE/AVX correspondence streams"]
+SIMD_TRUST = ["semantics of the x86 intrinsics in HH/Intrin/X86.lean (Intel pseudo-code), validated against the real instructions through the SSE/AVX correspondence streams and the intrinsic conformance stream"]
 
 THEOREMS = {
     "C01": dict(module="HH.Props.EndToEnd", trusted=MODEL_TRUST + ["HH/Spec.lean: hand transcription of the HighwayHash algorithm, validated in the kernel against the 195 published vectors + 5 README/test vectors"],
